@@ -29,7 +29,8 @@ META = {
                   "(reflective linear normal form); vm_compute correspondence with midgard on exact doubles"),
     "level_text": (
         "Theorems in Coq 8.16 for all rational epochs/durations (no range limit): (t+d)-t=d, (t-d)+d=t, (t2-t1)+t1=t2, "
-        "t-d=t+(-d), d1+d2=d2+d1, (d1+d2)-d2=d1, t+d=d+t, independence of the duration format, refusal of mixed scales and of "
+        "t-d=t+(-d), d1+d2=d2+d1, (d1+d2)-d2=d1, t+d=d+t, and generally every accepted expression over +, -, unary minus "
+        "evaluates to the signed sum of its leaves (all operation sequences, by induction); independence of the duration format, refusal of mixed scales and of "
         "time+time / duration-time, scale and format of every result, and a rounding-error bound (two-part arithmetic on "
         "half-integer day parts loses < 0.04 ns for any rounding function with relative error 2^-53). The methods' bodies are "
         "re-read from /repo on every run and proved (kernel) to equal the model with the quirk set Coq computes for them; the "
@@ -42,7 +43,7 @@ META = {
 
 THEOREMS = [
     "add_sub_cancel", "sub_add_cancel", "diff_add", "sub_is_add_neg", "delta_add_comm", "delta_add_sub",
-    "time_delta_add_comm", "duration_format_irrelevant", "mixed_scale_refused", "meaningless_refused",
+    "time_delta_add_comm", "expression_affine", "expression_same_point", "expression_defined", "duration_format_irrelevant", "mixed_scale_refused", "meaningless_refused",
     "result_scale_fmt",
     "delta_to_jds_value", "delta_to_jds_normalised", "delta_from_to_jds",
     "two_part_accuracy", "method_eqb_sound", "method_eqb_complete", "gen_is_model", "gen_laws_if_clean",
@@ -875,6 +876,26 @@ def _ro(a):
     return a
 
 
+MAX_REPLAYS = 40
+
+
+def report(ctx, replay, what, found=True):
+    """ctx.violation, but after MAX_REPLAYS replay files only count (a broken tree fails thousands of cases)."""
+    if len(ctx.violations) < MAX_REPLAYS:
+        ctx.violation(replay, what=what, found=found)
+    else:
+        ctx.count("violations_beyond_replay_cap")
+        ctx.violations.append((None, found))
+
+
+def finding(ctx, fid, what, replay):
+    """ctx.finding with the replay cap: KNOWN-FINDING if `fid` is listed open, else a (capped) violation."""
+    if any(k.get("id") == fid and k.get("status", "open") == "open" for k in ctx.known):
+        return ctx.finding(fid, what, replay)
+    report(ctx, replay, what)
+    return False
+
+
 def decide(ctx, col, verdicts, code):
     """Classify the verdicts of one batch of scenarios (DESIGN 2.6 / README protocol step 3)."""
 
@@ -912,9 +933,9 @@ def decide(ctx, col, verdicts, code):
                 qs = [q for q in qs if q]
                 if qs:
                     ctx.count(f"law_broken_by:{VERDICT_QUIRK[qs[0]]}:{meta['law']}")
-                    ctx.finding(VERDICT_QUIRK[qs[0]], QUIRK_WHAT[VERDICT_QUIRK[qs[0]]], dict(meta, verdict=v, kind="law"))
+                    finding(ctx, VERDICT_QUIRK[qs[0]], QUIRK_WHAT[VERDICT_QUIRK[qs[0]]], dict(meta, verdict=v, kind="law"))
                 else:
-                    ctx.violation(dict(meta, verdict=v, kind="law"), what=f"law {meta['law']} fails to 1 ns on the implementation")
+                    report(ctx, dict(meta, verdict=v, kind="law"), f"law {meta['law']} fails to 1 ns on the implementation")
                 continue
             q = VERDICT_QUIRK.get(v)
             if fn == "check_op" and v == 6 and meta["step"] in UNNORMALISED_FROM:
@@ -931,11 +952,11 @@ def decide(ctx, col, verdicts, code):
                     q = "c03_sub_drops_days"
             if q:
                 ctx.count(f"quirk:{q}")
-                ctx.finding(q, QUIRK_WHAT[q], dict(meta, verdict=v, kind=fn))
+                finding(ctx, q, QUIRK_WHAT[q], dict(meta, verdict=v, kind=fn))
             else:
-                ctx.violation(dict(meta, verdict=v, kind=fn), what=f"midgard differs from the model ({fn}, {meta.get('step')})")
+                report(ctx, dict(meta, verdict=v, kind=fn), f"midgard differs from the model ({fn}, {meta.get('step')})")
     for cls, rep in col.direct:
-        ctx.violation(dict(rep, kind=cls), what=rep.get("what", cls))
+        report(ctx, dict(rep, kind=cls), rep.get("what", cls))
 
 
 def run(ctx):
@@ -954,7 +975,7 @@ def run(ctx):
     from midgard.data.time import Time
     scales = list(Time.SCALES)
     rng = ctx.rng
-    n_scen = 260 if ctx.quick() else 4000
+    n_scen = 180 if ctx.quick() else 2000
     specs = [json.loads(json.dumps(c)) for c in CORPUS]
     for _ in range(n_scen):
         specs.append(gen_scenario(rng, scales))
